@@ -648,7 +648,9 @@ class System:
 
     def close_model(self, model):
         model.refmgr.del_all_spec()
-        del self.models[model.name]
+        if self.models.get(model.name) is model:
+            # If already closed, the name may denote another model by now
+            del self.models[model.name]
         if self.currentmodel is model:
             self.currentmodel = None
 
